@@ -69,11 +69,57 @@ def t1_cfgs(draw):
 
 
 @st.composite
+def motif_graph(draw):
+    """Two-path motif: from a seed s a SHORT weak path and a LONG strong path join at j, followed by a tail.  Best-first
+    expansion reaches j over the long path first; hop distances must then be relaxed when the short path arrives, and
+    the radius/layer caps decide whether the tail is reached.  Returns (spec, seed_label, suggested radius)."""
+    l_short = draw(st.integers(1, 2))
+    l_long = l_short + draw(st.integers(1, 2))
+    tail = draw(st.integers(1, 2))
+    names = iter(["s", "p1", "p2", "p3", "p4", "q1", "q2", "j", "t1", "t2"])
+    nodes = [{"id": "s", "label": "apple", "tags": []}]
+    edges = []
+
+    def add_path(prefix, length, w, rel):
+        prev = "s"
+        for i in range(length - 1):
+            nid = f"{prefix}{i}"
+            nodes.append({"id": nid, "label": draw(st.sampled_from(["", "zzz", "fig"])), "tags": []})
+            edges.append({"id": f"e{len(edges)}", "src": prev, "dst": nid, "w": w, "rel": rel})
+            prev = nid
+        edges.append({"id": f"e{len(edges)}", "src": prev, "dst": "j", "w": w, "rel": rel})
+
+    strong_first = draw(st.booleans())
+    order = [("L", l_long, draw(st.sampled_from([1.0, 0.95])), "supports"), ("S", l_short, draw(st.sampled_from([0.05, 0.1, 0.2])), "associates")]
+    if not strong_first:
+        order.reverse()
+    for pfx, ln, w, rel in order:
+        add_path(pfx, ln, w, rel)
+    nodes.append({"id": "j", "label": "zzz", "tags": []})
+    prev = "j"
+    for i in range(tail):
+        nid = f"t{i}"
+        nodes.append({"id": nid, "label": "", "tags": []})
+        edges.append({"id": f"e{len(edges)}", "src": prev, "dst": nid, "w": 1.0, "rel": "supports"})
+        prev = nid
+    for _ in range(draw(st.integers(0, 2))):  # a little noise
+        a, b = draw(st.sampled_from(nodes))["id"], draw(st.sampled_from(nodes))["id"]
+        edges.append({"id": f"e{len(edges)}", "src": a, "dst": b, "w": draw(st.sampled_from([0.3, -0.4, 0.0])), "rel": "supports"})
+    radius = l_short + draw(st.integers(0, tail))
+    return {"nodes": nodes, "edges": edges}, radius
+
+
+@st.composite
 def cases(draw):
     ng = draw(st.integers(1, 4))
     gids = draw(st.lists(st.sampled_from(["g1", "g2", "G", "γ", "g10", "main"]), min_size=ng, max_size=ng, unique=True))
     graphs = {gid: draw(world.graph_specs()) for gid in gids}
     text = draw(world.texts_for(graphs))
+    motif_radius = None
+    if draw(st.sampled_from([True, False, False])):
+        spec, motif_radius = draw(motif_graph())
+        graphs[gids[0]] = spec
+        text = (text + " apple").strip()
     use_validated = draw(st.sampled_from([False] * 5 + [True]))
     if use_validated:
         t1 = None
@@ -89,6 +135,15 @@ def cases(draw):
     else:
         t1 = draw(t1_cfgs())
         over = None
+        if motif_radius is not None and draw(st.booleans()):
+            t1["radius_cap"] = motif_radius
+            t1["node_budget"] = 100.0
+            t1.pop("relax_cap", None)
+            t1.pop("queue_budget", None)
+            if draw(st.booleans()):
+                t1.pop("iter_cap", None)
+                t1.pop("iter_cap_layers", None)
+            t1["decay"] = draw(st.sampled_from([{"mode": "exp_floor", "rate": 0.9, "floor": 0.05}, {"mode": "attn_quad", "alpha": 0.1}]))
     slice_caps = None
     if draw(st.sampled_from([True, False, False])):
         slice_caps = {}
@@ -240,7 +295,8 @@ def check_case(case, rec=None):
         nt = any_seed_out and binding
         labels = [f"graphs={len(case['order'])}"] + (["seed_out"] if any_seed_out else []) + (["binding"] if binding else []) + \
                  (["perf_caps"] if caps_on else []) + (["slice"] if case["slice"] else []) + \
-                 (["validated"] if case["validated"] is not None else []) + (["deltas>0"] if deltas else [])
+                 (["validated"] if case["validated"] is not None else []) + (["deltas>0"] if deltas else []) + \
+                 (["motif"] if any(n["id"] == "j" for g in case["graphs"].values() for n in g["nodes"]) else [])
         rec.case(nontrivial=nt, dig=digest(case) if nt else None, labels=labels,
                  sample={"text": case["text"], "graphs": {g: {"nodes": [(n["id"], n["label"]) for n in s["nodes"]],
                                                               "edges": [(e["src"], e["dst"], e["w"], e["rel"]) for e in s["edges"]][:8]}
